@@ -7,7 +7,7 @@ export REPO
 cd "$(dirname "$0")/.."
 for id in "$@"; do
   pid=${id%%_*}
-  if ! git -C "$REPO" apply "seeded/$id/patch.diff" 2>/dev/null; then echo "REGRESS $id cannot-apply"; continue; fi
+  if ! git -C "$REPO" apply "$PWD/seeded/$id/patch.diff" 2>/dev/null; then echo "REGRESS $id cannot-apply"; continue; fi
   out=$(./check $pid quick 2>&1 | grep -v "^KNOWN" | tail -1)
   git -C "$REPO" checkout -- . 
   case "$out" in
